@@ -5,7 +5,7 @@
 
 Require Extraction.
 Require Import ExtrOcamlBasic.
-From Sodg Require Import Base Text Hex Label Sodg Esort Print Export Slice Merge Serial Script Spec SpecDec.
+From Sodg Require Import Base Text Hex Label Sodg Esort Print Export Slice Merge Serial Script Spec SpecDec XShow.
 
 Extraction Language OCaml.
 
@@ -31,4 +31,6 @@ Extraction "Model.ml"
   (* script *)
   op_deploy commands
   (* reference model *)
-  sinit sstep preb s_keys.
+  sinit sstep preb s_keys
+  (* extraction cross-check *)
+  xshow_run.
